@@ -27,20 +27,20 @@ pub struct DepGraph {
 
 /// A field of a bundled description that reaches the registry and can be re-typed.
 pub struct Slot {
-    container: &'static str,
-    variant: Option<&'static str>,
-    field: &'static str,
+    pub container: &'static str,
+    pub variant: Option<&'static str>,
+    pub field: &'static str,
 }
 
 /// A type a crate defines whenever it is loaded (it is in the closure of one of its operations).
 pub struct Export {
-    path: &'static [&'static str],
-    kind: ItemKind,
+    pub path: &'static [&'static str],
+    pub kind: ItemKind,
 }
 
 pub const ROOT: &str = "tap_to_pay";
 
-fn slots(krate: &str) -> &'static [Slot] {
+pub fn slots(krate: &str) -> &'static [Slot] {
     match krate {
         // the first slot of the root replaces its only bundled dependency (crux_core), so that the
         // root's direct dependencies are exactly those of the graph
@@ -62,7 +62,7 @@ fn slots(krate: &str) -> &'static [Slot] {
     }
 }
 
-fn export(krate: &str) -> Option<Export> {
+pub fn export(krate: &str) -> Option<Export> {
     Some(match krate {
         "crux_time" => Export { path: &["crux_time", "protocol", "duration", "Duration"], kind: ItemKind::Struct },
         "crux_kv" => Export { path: &["crux_kv", "value", "Value"], kind: ItemKind::Enum },
@@ -71,19 +71,19 @@ fn export(krate: &str) -> Option<Export> {
     })
 }
 
-fn export_name(krate: &str) -> String {
+pub fn export_name(krate: &str) -> String {
     export(krate)
         .and_then(|e| e.path.last().map(|s| s.to_string()))
         .unwrap_or_else(|| machinery_error(&format!("dep-graph: crate {krate} has no export type")))
 }
 
-struct Located {
-    container: Id,
-    variant: Option<Id>,
-    field: Id,
+pub struct Located {
+    pub container: Id,
+    pub variant: Option<Id>,
+    pub field: Id,
 }
 
-fn locate(c: &Crate, krate: &str, slot: &Slot) -> Located {
+pub fn locate(c: &Crate, krate: &str, slot: &Slot) -> Located {
     let fail = |what: &str| -> ! {
         machinery_error(&format!(
             "dep-graph: slot {}::{:?}.{} of {krate}: {what}",
@@ -245,7 +245,7 @@ fn set_named(slot: &mut Value, new: Value) -> Option<()> {
 }
 
 /// Replaces, in the registry entry of the slot's container, the format of the slot's field.
-fn patch(reg: &mut Value, c: &Crate, loc: &Located, new: Value) -> Option<()> {
+pub fn patch(reg: &mut Value, c: &Crate, loc: &Located, new: Value) -> Option<()> {
     let container = c.index.get(&loc.container)?;
     let entry = reg.get_mut(reference::container_name(container)?)?;
     let field_ids = |item: &Item| -> Vec<Id> {
@@ -337,6 +337,7 @@ pub fn case(root: &str, g: &DepGraph, facts: Order, renumber: Renumber, priority
         declared_swap: None,
         dep_graph: Some(g.clone()),
         variant_shape: None,
+        type_expr: None,
     }
 }
 
